@@ -1,11 +1,12 @@
 PROP = {
     "id": "C17",
     "theorem_modules": ["Verif.Properties.C17"],
-    "min_theorems": 5,
+    "min_theorems": 6,
     "required_theorems": [
         "Verif.Properties.C17.bytes_nil_iff",
         "Verif.Properties.C17.bytes_roundtrip",
         "Verif.Properties.C17.string_roundtrip_partial",
+        "Verif.Properties.C17.fixed_toString_shape",
     ],
     "streams": [
         {"name": "text", "driver": "drv_text",
